@@ -108,10 +108,28 @@ class RollMux(Spawner):
     drop_build_pc = True        # the factory's path condition (real `window % stride`) is only needed by the arith/ lemmas
 
     def __init__(self):
+        import ast
+
+        def calls(node):
+            out = set()
+            for n_ in ast.walk(node):
+                if isinstance(n_, ast.Call):
+                    f_ = n_.func
+                    out.add(f_.attr if isinstance(f_, ast.Attribute) else getattr(f_, 'id', ''))
+            return out
+
+        def shape(pred):
+            return lambda fn, node: fn.startswith('rxsci.data.roll.roll_mux._roll.') and fn != HQ and isinstance(node, ast.For) and pred(calls(node))
+        nxt = InvLoop(self.next_inv, modifies=('store', 'trace', 'locals'), lemmas=self.next_lemmas)
+        cre = InvLoop(self.create_inv, modifies=('store',))
+        flu = InvLoop(self.flush_inv, modifies=('store', 'trace', 'locals'), lemmas=self.flush_lemmas)
         self.loop_contracts = {
-            (HQ, 0): InvLoop(self.next_inv, modifies=('store', 'trace', 'locals'), lemmas=self.next_lemmas),
-            (HQ, 1): InvLoop(self.create_inv, modifies=('store',)),
-            (HQ, 2): InvLoop(self.flush_inv, modifies=('store', 'trace', 'locals'), lemmas=self.flush_lemmas),
+            (HQ, 0): nxt, (HQ, 1): cre, (HQ, 2): flu,
+            # the same loops when a refactoring moved them into a local helper of _roll (recognised by what their body calls):
+            # delivery loop: completes full windows; creation loop: add_key; flush loop: set_state without a completion event built here
+            ('match', shape(lambda c: 'OnCompletedMux' in c and 'get_state' in c)): nxt,
+            ('match', shape(lambda c: 'add_key' in c and 'get_state' not in c)): cre,
+            ('match', shape(lambda c: 'set_state' in c and 'get_state' in c and 'OnCompletedMux' not in c and 'add_key' not in c)): flu,
         }
 
     def configs(self):
